@@ -3,11 +3,11 @@ SPEC = {
     "level": "proof",
     "lean_modules": ["PallasVerif.Props.C05"],
     "required_theorems": ["elemSpan_is_slice", "txId_is_hash_of_slice", "encode_injective", "id_input_changes_with_encoding",
-                          "byron_prefix", "headerHash_cases", "keepraw_span"],
+                          "byron_prefix", "headerHash_cases", "keepraw_span", "blockHash_is_hash_of_slice", "itemsOfKey_slices"],
     "streams": [{"name": "idhash", "quick": 400, "thorough": 12000}],
     "rule": "cases: `tx <era> <cbor>` (+ `datums`, `scripts`, `inline`: hashes of witness-set datums, native scripts, inline datums), `block <cbor>`, "
             "`header <wrapper-tag> <cbor>`. Corpus: every test_data/*.tx, *.block (+ each block's header span and first 2 (thorough 6) transactions), "
-            "*.header; thorough adds every 8th block of the three immutable-db chunks. Mutants (the `quick`/`thorough` count): the same items after 1..3 "
+            "*.header; genesis.block (epoch boundary) and a small synthetic epoch-boundary block; every 400th (thorough: 8th) block of the three immutable-db chunks. Mutants (the `quick`/`thorough` count): the same items after 1..3 "
             "structural CBOR mutations at the concrete-syntax level (definite<->indefinite containers, wider-than-minimal heads on ints / lengths / tags, "
             "swapped map entries, byte strings split into chunks, set tag 258 dropped), kept only if pallas still decodes them. distinct = sha1 of op text; "
             "non-trivial = the case produced at least one identifier (decoded tx / block / header)",
